@@ -5,6 +5,7 @@ package main
 // analyses the executor needs.
 
 import (
+	"encoding/json"
 	"strconv"
 	"bytes"
 	"fmt"
@@ -40,6 +41,9 @@ type Engine struct {
 	// wrappers of mid-function clauses that did not type-check in the full load (the code they are anchored in changed
 	// shape): regenerated without them, the clauses are reported as lost anchors
 	badWrappers map[string]string
+	baseNames   map[string]FuncNames
+	curNames    map[string]FuncNames
+	renameNotes []string
 	recSpec  map[*ssa.Function]bool
 
 	nodeAt     map[*ssa.Function]map[token.Pos]ast.Node
@@ -109,6 +113,7 @@ func loadEngine(repo string, patterns []string, extraOverlay map[string][]byte) 
 	eng.badWrappers = map[string]string{}
 retry:
 	eng.drift = nil
+	eng.renameNotes = nil
 	eng.cfiles = map[string]*ContractFile{}
 	for k := range eng.overlay {
 		if strings.HasSuffix(k, overlayFileName) {
@@ -488,6 +493,7 @@ func (eng *Engine) genOverlay(p *packages.Package, cf *ContractFile, fset *token
 		if err != nil {
 			return nil, fmt.Errorf("%s:%d: %v", cf.Path, fs.Line, err)
 		}
+		g.eng.followRenames(p, fs, fi)
 		base := "__w_" + sanitizeIdent(fs.Name)
 		emit := func(cl *Clause, kind string, withResults bool, pos token.Pos) error {
 			cl.WrapperName = fmt.Sprintf("%s_%s_%s", base, kind, sanitizeIdent(cl.Label))
@@ -1016,6 +1022,129 @@ func (g *overlayGen) shadowedAt(fi *funcInfo, name string, pos token.Pos) bool {
 		}
 	}
 	return false
+}
+
+// ---------- renamed parameters and locals ----------
+
+// FuncNames: the parameters and the locals of a function under contract, in source order, with their types - recorded at
+// baseline. A contract names locals; when a later tree differs from the baseline only in how some of them are called
+// (same number of declarations, same types, in the same order), the clauses follow the new names instead of losing
+// their anchors. Anything else (a declaration added, removed, retyped) is left to the ordinary drift handling.
+type FuncNames struct {
+	Params []string    `json:"params"`
+	Locals [][2]string `json:"locals"`
+}
+
+var namesPath string // <root>/contracts/names.json, set by the check command
+
+func (eng *Engine) collectNames(p *packages.Package, fi *funcInfo) FuncNames {
+	var fn FuncNames
+	fn.Params = append(fn.Params, fi.pnames...)
+	if fi.decl == nil || fi.decl.Body == nil {
+		return fn
+	}
+	qual := func(q *types.Package) string { return q.Name() }
+	ast.Inspect(fi.decl.Body, func(n ast.Node) bool {
+		if id, ok := n.(*ast.Ident); ok {
+			if v, ok := p.TypesInfo.Defs[id].(*types.Var); ok && !v.IsField() && id.Name != "_" {
+				fn.Locals = append(fn.Locals, [2]string{id.Name, types.TypeString(v.Type(), qual)})
+			}
+		}
+		return true
+	})
+	return fn
+}
+
+func (eng *Engine) followRenames(p *packages.Package, fs *FuncSpec, fi *funcInfo) {
+	key := p.PkgPath + "." + fs.Name
+	cur := eng.collectNames(p, fi)
+	if eng.curNames == nil {
+		eng.curNames = map[string]FuncNames{}
+	}
+	eng.curNames[key] = cur
+	if eng.baseNames == nil {
+		eng.baseNames = map[string]FuncNames{}
+		if namesPath != "" {
+			if data, err := os.ReadFile(namesPath); err == nil {
+				json.Unmarshal(data, &eng.baseNames)
+			}
+		}
+	}
+	base, ok := eng.baseNames[key]
+	if !ok || len(base.Params) != len(cur.Params) || len(base.Locals) != len(cur.Locals) {
+		return
+	}
+	present := map[string]bool{}
+	for _, n := range cur.Params {
+		present[n] = true
+	}
+	for _, l := range cur.Locals {
+		present[l[0]] = true
+	}
+	ren := map[string]string{}
+	bad := map[string]bool{}
+	add := func(from, to string) {
+		if from == to || present[from] {
+			return
+		}
+		if prev, ok := ren[from]; ok && prev != to {
+			bad[from] = true
+		}
+		ren[from] = to
+	}
+	for i := range base.Params {
+		add(base.Params[i], cur.Params[i])
+	}
+	for i := range base.Locals {
+		if base.Locals[i][1] != cur.Locals[i][1] {
+			return // a declaration changed its type: not a pure renaming
+		}
+		add(base.Locals[i][0], cur.Locals[i][0])
+	}
+	for from := range bad {
+		delete(ren, from)
+	}
+	if len(ren) == 0 {
+		return
+	}
+	var froms []string
+	for from := range ren {
+		froms = append(froms, from)
+	}
+	sort.Strings(froms)
+	fix := func(cl *Clause) {
+		for _, from := range froms {
+			cl.Go = replaceWord(cl.Go, from, ren[from])
+		}
+	}
+	for i := range fs.Requires {
+		fix(&fs.Requires[i])
+	}
+	for i := range fs.Ensures {
+		fix(&fs.Ensures[i])
+	}
+	for _, ls := range fs.Loops {
+		for i := range ls.Invariants {
+			fix(&ls.Invariants[i])
+		}
+		if ls.Decreases != nil {
+			fix(ls.Decreases)
+		}
+	}
+	for i := range fs.Asserts {
+		fix(&fs.Asserts[i].Clause)
+	}
+	if fs.Alloc != nil {
+		fix(fs.Alloc)
+	}
+	for i := range fs.Modifies {
+		for _, from := range froms {
+			fs.Modifies[i] = replaceWord(fs.Modifies[i], from, ren[from])
+		}
+	}
+	for _, from := range froms {
+		eng.renameNotes = append(eng.renameNotes, fmt.Sprintf("%s: contract follows the renaming %s -> %s", fs.Name, from, ren[from]))
+	}
 }
 
 func (g *overlayGen) declared(name string) bool {
